@@ -286,6 +286,8 @@ class Walker:
             if self.cur is not None or self.cur_idle is not None:
                 self.removed_inside = getattr(self, "removed_inside", set())
                 self.removed_inside.add(h)
+            if insider and h in self.live:
+                self.last_self_removed = (self.disp_no, h)
             if h in self.live:
                 if insider:
                     self.pending_self.append(("dead", h))
@@ -475,6 +477,14 @@ class Walker:
                         kind = "disabled-after-update" if h in self.updated_while_disabled else "disabled"
                         self.fail("C14", kind, "before_sleep called for disabled source %d" % h)
                 continue
+            if self.in_dispatch and batch is None and (tag in ("4", "2", "5") or (tag == "6" and int(ws[2]) == 0)):
+                # the dispatch went on (hooks, callbacks, idles, an Ok result) without ever asking the poller: it is judged as a wait that
+                # reported nothing - whatever was ready at this point and is not dispatched in it was missed (C02)
+                self.close_segment()
+                batch = []
+                self.take_snapshot()
+                self.snapshot["batch_keys"] = set()
+                RULE_STATS["C02/no-poll: dispatches that never waited on the poller"] += 1
             if tag == "7":    # batch = the wait happened
                 self.close_segment()
                 batch = [int(x) for x in ws[1:]]
@@ -488,6 +498,13 @@ class Walker:
                     sp = self.spec.get(h)
                     if sp and sp[2] == "comp" and sp[3] == "1" and h not in self.disabled and h not in self.excused and h not in got:
                         self.fail("C14", "missing", "enabled lifecycle source %d got no before_sleep in this dispatch" % h)
+                        x = getattr(self, "last_self_removed", None)
+                        if x is not None and x[1] != h and self.disp_no - x[0] <= 1 and h not in self.touched:
+                            # nothing named source h since; the only thing that was applied in between is the removal another source
+                            # had asked for itself from inside its callback (carried out when that event's processing ended)
+                            self.fail("C09", "applied-to-another-source", "source %d removed itself from inside its callback in dispatch %d; when that "
+                                      "removal was carried out at the end of the event's processing it also took away the lifecycle registration of "
+                                      "source %d, which nobody asked to change: it gets no before_sleep any more" % (x[1], x[0], h))
                 continue
             if tag == "4":    # before_handle_events
                 self.close_segment()
@@ -865,6 +882,11 @@ class Walker:
         now = 2 * self.phase + 1
         fired = getattr(self, "fired_this_dispatch", set())
         for h, (dl, armed) in snap["timers"].items():
+            if armed and dl is not None and dl <= now and h not in fired and h in self.live and h in self.touched and h not in self.excused:
+                # its expiry was in the abandoned batch AND an operation named it during that dispatch (re-armed? only its dispatcher
+                # dropped?): whether an arming is left is not known from here on
+                self.excuse(h, "abandoned-batch")
+                continue
             if armed and dl is not None and dl <= now and h not in fired and h in self.live and h not in self.touched and h not in self.excused:
                 self.timer[h]["lost_in_failed_dispatch"] = True
                 self.timer[h]["armed"] = False
